@@ -267,3 +267,21 @@ PROPS["C04"] = {
     "uncovered": ["collocated cokriging vs augmented data", "Bayesian and cross-validation forms of KrigingCalcul", "the ball-tree algorithm itself (specified, not modelled)"],
     "assumptions": ["nearest-sample ties (exact integer test) are skipped and counted"],
 }
+
+PROPS["C05"] = {
+    "module": "GstProofs.Props.C05",
+    "theorems": [
+        "GstProofs.C05.pairs_filter", "GstProofs.C05.pairTerm_some", "GstProofs.C05.vario_removed",
+        "GstProofs.C05.moments_removed", "GstProofs.C01.compress", "GstProofs.C01.compress_rhs",
+    ],
+    "harnesses": ["vh_c05"],
+    "level": "proof",
+    "technique": "Lean 4 theorems that the models ignore masked / undefined samples (pairwise variogram definition over all samples = over the samples that count, for every lag and direction; statistics accumulation loop = loop over the filtered list; kriging system assembled from the compressed rows) + differential correspondence: every operation of the real library is run on a data base with masked samples / undefined values / undefined coordinates and on the physically reduced data base, the two answers are compared by the Lean driver; masked targets must keep the undefined value",
+    "level_text": "Partial proof: removal-invariance of the variogram definition, of the statistics loop and of the kriging system assembly are theorems of the models for all inputs; the library is compared with itself (masked vs removed) for kriging (unique, moving), cross-validation, variograms, statistics, covariance and drift matrices and conditional turning-bands simulation, with selection, undefined values, undefined coordinates and their mixture; masked targets are checked to stay undefined.",
+    "level_note": "Trusted: Lean kernel + 3 standard axioms. Two known findings (F70, F71) are reported on the current tree: undefined values still extend the simulation field, and undefined coordinates are not recognised by most operations.",
+    "rule": "random configurations (1-3D, 1-2 variables, 10-18 samples of which ~30% masked / undefined, 5 targets some masked, known mean or order 0-1 drift); per configuration: kriging unique+moving, xvalid, variogram (3-6 lags), 6 statistics, covariance and drift matrices, conditional simtub (2 simulations, same seed). distinct = distinct request line",
+    "trivial": lambda line: False,
+    "trusted_base": TB_COMMON,
+    "uncovered": ["SPDE, Gibbs and other simulators", "grid-specific variogram algorithm", "heterotopic removal is covered by the C01 compress theorems and its correspondence, not re-run here"],
+    "assumptions": [],
+}
